@@ -41,7 +41,7 @@ func (p *Peer) Close() { p.c.Close() }
 func (p *Peer) call(prog, vers, proc uint32, cred Cred, args []byte) (uint32, uint32, []byte, error) {
 	p.xid++
 	msg := cat(encCallHdr(p.xid, 2, prog, vers, proc, cred.Flavor, cred.body(), 0, nil), args)
-	p.c.SetDeadline(time.Now().Add(3 * time.Second))
+	p.c.SetDeadline(time.Now().Add(10 * time.Second))
 	if _, err := p.c.Write(frame(msg, nil)); err != nil {
 		return 0, 0, nil, err
 	}
